@@ -137,6 +137,59 @@ def parse_facts(src, die):
     return out
 
 
+def wrapper_facts(read, die):
+    """TreeSequence.dump_text forwards every parameter to text_formats.dump_text under the same
+    name; load_text forwards strict / encoding / base64_metadata to every parse_* it calls and
+    lets each write into the matching table of the collection."""
+    tree = ast.parse(read("python/tskit/trees.py"))
+    cls = [n for n in tree.body if isinstance(n, ast.ClassDef) and n.name == "TreeSequence"]
+    if len(cls) != 1:
+        die("facts_c17: class TreeSequence not found")
+    dt = [n for n in cls[0].body if isinstance(n, ast.FunctionDef) and n.name == "dump_text"]
+    if len(dt) != 1 or dt[0].args.vararg or dt[0].args.kwarg:
+        die("facts_c17: TreeSequence.dump_text not found / unexpected signature")
+    params = [a.arg for a in dt[0].args.args[1:]] + [a.arg for a in dt[0].args.kwonlyargs]
+    calls = [n for n in ast.walk(dt[0]) if isinstance(n, ast.Call) and isinstance(n.func, ast.Attribute)
+             and n.func.attr == "dump_text" and getattr(n.func.value, "id", None) == "text_formats"]
+    if len(calls) != 1 or [getattr(a, "id", None) for a in calls[0].args] != ["self"]:
+        die("facts_c17: expected one text_formats.dump_text(self, ...) call")
+    forwarded = []
+    for k in calls[0].keywords:
+        if k.arg is None or not isinstance(k.value, ast.Name):
+            die("facts_c17: dump_text keyword %r is not a plain name" % k.arg)
+        forwarded.append(k.arg + "=" + k.value.id)
+    if any(isinstance(n, (ast.Assign, ast.AugAssign)) for n in ast.walk(dt[0])):
+        die("facts_c17: TreeSequence.dump_text assigns to something before forwarding")
+    tf = ast.parse(read("python/tskit/text_formats.py"))
+    inner = [n for n in tf.body if isinstance(n, ast.FunctionDef) and n.name == "dump_text"]
+    inner_params = [a.arg for a in inner[0].args.args[1:]] + [a.arg for a in inner[0].args.kwonlyargs]
+    lt = [n for n in tree.body if isinstance(n, ast.FunctionDef) and n.name == "load_text"][0]
+    pcalls = []
+    for n in ast.walk(lt):
+        if isinstance(n, ast.Call) and isinstance(n.func, ast.Name) and n.func.id.startswith("parse_"):
+            tab = n.func.id[len("parse_"):]
+            if len(n.args) != 1 or getattr(n.args[0], "id", None) != tab:
+                die("facts_c17: %s is not called on the %s file" % (n.func.id, tab))
+            kws = []
+            for k in n.keywords:
+                v = k.value
+                if isinstance(v, ast.Name):
+                    kws.append(k.arg + "=" + v.id)
+                elif isinstance(v, ast.Attribute) and isinstance(v.value, ast.Name):
+                    kws.append(k.arg + "=" + v.value.id + "." + v.attr)
+                else:
+                    die("facts_c17: unrecognised keyword value in %s" % n.func.id)
+            pcalls.append(tab + ":" + ",".join(kws))
+    return params, forwarded, inner_params, sorted(pcalls)
+
+
+def cstrs(xs):
+    for x in xs:
+        if not all(c.isalnum() or c in "_=.:," for c in x):
+            raise ValueError(x)
+    return "[" + "; ".join('"%s"%%string' % x for x in xs) + "]"
+
+
 def facts(read, die, define):
     d = dump_facts(read("python/tskit/text_formats.py"), die)
     p = parse_facts(read("python/tskit/trees.py"), die)
@@ -162,4 +215,9 @@ def facts(read, die, define):
     lines.append("Definition c17_provenances_have_reader : bool := %s."
                  % ("true" if (has_reader or "provenances" in params) else "false"))
     lines.append("Definition c17_load_text_params : list string := %s." % clist(params))
+    wp, wf, wi, pc = wrapper_facts(read, die)
+    lines.append("Definition c17_dump_text_params : list string := %s." % cstrs(wp))
+    lines.append("Definition c17_dump_text_keywords : list string := %s." % cstrs(wf))
+    lines.append("Definition c17_text_formats_dump_text_params : list string := %s." % cstrs(wi))
+    lines.append("Definition c17_load_text_parse_calls : list string := %s." % cstrs(pc))
     return lines
